@@ -54,7 +54,10 @@ Definition mt_empty : memtable := mkMT [] 0 0 false.
 Definition mt_add (m : memtable) (e : mentry) : memtable :=
   if mt_imm m then m else
   mkMT (insert e (mt_entries m)) (mt_size m + esize e)
-       (if mt_next m <? mseq e then mseq e + 1 else mt_next m) false.
+       (if mt_next m <? mseq e then (mseq e + 1) mod 2^64 else mt_next m) false.
+(* nextSeqNum is a uint64: seqNum+1 wraps to 0 for seqNum = 2^64-1 (then the snapshot filter of a
+   mutable table's iterator hides entries; unreachable through the WAL, which rejects sequence
+   numbers >= MaxSequenceNumber — the theorems carry the guard mseq < 2^64-1) *)
 
 Definition mt_put (m : memtable) (k v : bytes) (s : N) : memtable := mt_add m (mkM k s KVal v).
 Definition mt_del (m : memtable) (k : bytes) (s : N) : memtable := mt_add m (mkM k s KDel []).
